@@ -56,9 +56,10 @@ class Scratch(object):
     def path(self):
         if self.dir is None:
             self.dir = tempfile.mkdtemp(prefix="esutil-replay-")
-            subprocess.check_call(["rsync", "-a", "--exclude", ".git", "--exclude", "*.so",
-                                   "--exclude", "build", "--exclude", "__pycache__",
-                                   repo() + "/", self.dir + "/"])
+            excl = ["--exclude", ".git", "--exclude", "build", "--exclude", "__pycache__"]
+            if self.build:
+                excl += ["--exclude", "*.so"]      # rebuilt below from the working tree
+            subprocess.check_call(["rsync", "-a"] + excl + [repo() + "/", self.dir + "/"])
             if self.build:
                 p = subprocess.run(["/venv/bin/python", "setup.py", "build_ext", "--inplace", "-j", "16"],
                                    cwd=self.dir, stdout=subprocess.PIPE, stderr=subprocess.STDOUT)
@@ -237,6 +238,9 @@ def main(argv=None):
             for c in todo:
                 r = replay_candidate(modname, c, sdir)
                 replayed += 1
+                if r.get("crashed"):
+                    sys.stderr.write("HARNESS-ERROR replay of candidate %r crashed: %s\n" % (c["label"], r.get("what")))
+                    return HARNESS_ERROR
                 if r.get("reproduced"):
                     key = r.get("key") or c["label"]
                     if key in known:
